@@ -1,6 +1,7 @@
 package main
 
 import (
+	"os"
 	"bytes"
 	"context"
 	"fmt"
@@ -213,7 +214,9 @@ func (e *c10env) ops() []c10op {
 	}
 	return []c10op{
 		{"New(name)", func(e *c10env, t *mnode) (*mnode, *slog.Entry, bool) {
-			name := gen.Pick(r, []string{"alpha", "beta", "gamma", "alpha", "db", "x", " alpha", "alpha ", "db\t", "  ", "Alpha", "alpha.1"})
+			name := gen.Pick(r, []string{"alpha", "beta", "gamma", "alpha", "db", "x", " alpha", "alpha ", "db\t", "  ", "Alpha", "alpha.1",
+				// names as long as an import path (generated child names are built from the receiver's name)
+				"github.com/example/project/internal/service/orders", "github.com/example/project/internal/service/orders/v2", strings.Repeat("n", 300)})
 			var opts []any
 			var post []func(n *mnode)
 			if r.P(40) {
@@ -600,7 +603,11 @@ func c10tree(c *Ctx) {
 		is.SetDebugMode(false)
 		// roots: two detached loggers and a fresh default logger
 		pkgLevel := slog.GetLevel()
-		r1 := slog.New("r1")
+		r1name := "r1"
+		if r.P(40) {
+			r1name = "github.com/example/project/cmd/server-with-a-rather-long-name"
+		}
+		r1 := slog.New(r1name)
 		n1 := e.add(nil, r1.Root())
 		r2 := slog.New()
 		n2 := e.add(nil, r2.Root())
@@ -791,6 +798,9 @@ func c10defaultLevel(c *Ctx) {
 		want := slog.WarnLevel
 		if c.Testing {
 			want = slog.DebugLevel
+		}
+		if v, ok := os.LookupEnv("DEBUG"); ok {
+			c.R.Distinct("DEBUG_values_in_the_environment", q(v)) // the driver only passes values that say "no"
 		}
 		check := func(stage string, want slog.Level) bool {
 			l := slog.New("fresh" + stage)
